@@ -153,6 +153,15 @@ func c11GenDoc(r *Rng, tame bool) c11Doc {
 	if r.Chance(50) {
 		schemas["List0"] = J{"type": "array", "items": add("top-level-array-item")}
 	}
+	// an enum declared through a composition: the value list stands in a later member than the first
+	if r.Chance(40) {
+		es := add("allOf-later-member")
+		first := J{"description": "the first member says what it is about"}
+		if t, ok := es["type"]; ok {
+			first["type"] = t
+		}
+		schemas["Composed0"] = J{"allOf": []interface{}{first, es}}
+	}
 	// object with enum properties, array items
 	props := J{}
 	for i := 0; i < 1+r.Intn(2); i++ {
@@ -342,6 +351,43 @@ func runC11(ctx *Ctx) error {
 		want := c11Expected(d, skip)
 		if strings.Join(have, "\x1e") != strings.Join(want, "\x1e") {
 			ctx.Res.Violate("values:"+cls, "the constants of the generated enum types are not the distinct values of the enum schemas: "+c11Diff(have, want), replay)
+		}
+	}
+	// two enum schemas whose names normalise to one Go type name, with different value lists: refusing the document is
+	// fine, generating it with the constants of only one of them is not
+	{
+		doc := wDoc(J{}, J{"schemas": J{"Foo.bar_baz": J{"type": "string", "enum": []interface{}{"a", "b"}}, "Foo_bar.baz": J{"type": "string", "enum": []interface{}{"c", "d"}}}})
+		var cfg codegen.Configuration
+		cfg.PackageName = "api"
+		cfg.Generate.Models = true
+		cfg.OutputOptions.SkipPrune = true
+		ctx.Res.Eval(J{"enums": "two schemas, one type name"}, true)
+		if spec, err := loadDoc(doc); err == nil {
+			if src, err := generate(spec, cfg); err != nil {
+				ctx.Res.Count("same-type-name:refused")
+			} else if got, err := c11Inspect(src); err == nil {
+				all := map[string]bool{}
+				for _, vs := range got.Types {
+					for _, v := range vs {
+						all[v] = true
+					}
+				}
+				var missing []string
+				for _, v := range []string{"a", "b", "c", "d"} {
+					found := false
+					for k := range all {
+						if strings.HasSuffix(k, ":"+v) || k == v {
+							found = true
+						}
+					}
+					if !found {
+						missing = append(missing, v)
+					}
+				}
+				if len(missing) > 0 {
+					ctx.Res.Violate("values:same-type-name:dropped", fmt.Sprintf("two enum schemas that share a Go type name are generated with the values %v of one of them left without a constant (constants: %v)", missing, SortedKeys(all)), J{"doc": doc})
+				}
+			}
 		}
 	}
 	return nil
